@@ -14,6 +14,9 @@ func TestProp(t *testing.T) { hx.Check(t, "program", Gen, Exec) }
 // TestEnum enumerates two small families completely:
 //   - precedence table: one name, every explicit kind x every default kind x both registration
 //     orders x every pair of requests from {Get, InjectTo required, InjectTo optional};
+//   - pre-populated targets: one name, 6 definition kinds x {required, optional} x {*Inst, interface{}} field x previous
+//     content {zero, foreign, second provider's, own} x {one provider, second provider first, second provider last} x
+//     {first request, after a Get}, at top level and from inside a factory;
 //   - rings: every ring N0 -> N1 -> ... -> N0 of length 1..5 (1..6 in the thorough tier) with every
 //     edge being {Get, InjectTo} x {required, optional}, entered at N0, then every name requested twice.
 func TestEnum(t *testing.T) {
@@ -29,7 +32,7 @@ func TestEnum(t *testing.T) {
 		return hx.One(t, "program", c, Exec)
 	}
 	defer func() {
-		hx.AddExhaustive(hx.Exhaustive{What: "precedence table (1 name) and dependency rings", Alphabet: "explicit{none,Set,AddFactory ok,AddFactory err} x default{none,SetDefault,AddDefaultFactory ok,AddDefaultFactory err} x order x request pairs; ring edges {Get,InjectTo}x{required,optional}", Bound: "ring length <= 5 (6 thorough)", Count: count})
+		hx.AddExhaustive(hx.Exhaustive{What: "precedence table (1 name), pre-populated injection targets (1 name) and dependency rings", Alphabet: "explicit{none,Set,AddFactory ok,AddFactory err} x default{none,SetDefault,AddDefaultFactory ok,AddDefaultFactory err} x order x request pairs; ring edges {Get,InjectTo}x{required,optional}", Bound: "ring length <= 5 (6 thorough)", Count: count})
 	}()
 	reqKinds := []Req{
 		{Kind: "get", Target: 0},
@@ -59,6 +62,43 @@ func TestEnum(t *testing.T) {
 						c := Case{Container: "plain", Extra: "none", Defs: defs, Reqs: []Req{r1, r2, {Kind: "define", Def: &DefOp{Op: "Set", Name: 1}}}}
 						if !one(c) {
 							return
+						}
+					}
+				}
+			}
+		}
+	}
+	// pre-populated targets: one name, definition kind x field kind x previous content x two-provider order x
+	// (requested before or not, so that "own" exists), followed by a late definition and a second Get
+	for _, e := range []*DefOp{nil, {Op: "Set"}, {Op: "SetDefault"}, {Op: "AddFactory", Factory: &Factory{Result: "ok"}}, {Op: "AddDefaultFactory", Factory: &Factory{Result: "ok"}}, {Op: "AddFactory", Factory: &Factory{Result: "err"}}} {
+		for _, optional := range []bool{false, true} {
+			for _, iface := range []bool{false, true} {
+				for _, pre := range []string{"", "foreign", "other", "own"} {
+					for _, pool := range []string{"", "before", "after"} {
+						for first := 0; first < 2; first++ {
+							var defs []DefOp
+							if e != nil {
+								defs = append(defs, *e)
+							}
+							var reqs []Req
+							if first == 1 {
+								reqs = append(reqs, Req{Kind: "get", Target: 0})
+							}
+							reqs = append(reqs, Req{Kind: "inject", Pool: pool, Fields: []Field{{Tag: "dep", Target: 0, Optional: optional, Iface: iface, Pre: pre}}},
+								Req{Kind: "define", Def: &DefOp{Op: "Set", Name: 1}}, Req{Kind: "get", Target: 0})
+							if !one(Case{Container: "plain", Extra: "none", Defs: defs, Reqs: reqs}) {
+								return
+							}
+							// the same injection issued from inside a factory
+							in := append(append([]DefOp(nil), defs...), DefOp{Op: "AddFactory", Name: 2, Factory: &Factory{Result: "ok", Steps: []Step{{Kind: "inject", Pool: pool, Optional: true,
+								Fields: []Field{{Tag: "dep", Target: 0, Optional: optional, Iface: iface, Pre: pre}}}}}})
+							rq := []Req{{Kind: "get", Target: 2}, {Kind: "get", Target: 0}}
+							if first == 1 {
+								rq = append([]Req{{Kind: "get", Target: 0}}, rq...)
+							}
+							if !one(Case{Container: "plain", Extra: "none", Defs: in, Reqs: rq}) {
+								return
+							}
 						}
 					}
 				}
